@@ -211,6 +211,29 @@ class Loop:
         self.note = note
 
     @staticmethod
+    def first_pass(eng, st):
+        """Dry run of the loop body on the first element from the state at loop entry (obligations discarded):
+        the ghost traces of its outcomes.  For contracts that name roles by what the code does ("the list that
+        receives the defaults") instead of by creation order or local names."""
+        s, seqv = eng._loop_in_hand
+        probe = st.fork()
+        mark = len(eng.obls)
+        n0 = len(probe.trace)
+        traces = []
+        try:
+            item = seqv.extra['get'](eng, z3.IntVal(0), probe)
+            for po in eng.assign(s.target, item, probe):
+                if po[0] != 'next':
+                    continue
+                for bo in eng.exec_block(s.body, po[1]):
+                    traces.append(bo[1].trace[n0:])
+        except Exception:
+            pass
+        finally:
+            del eng.obls[mark:]
+        return traces
+
+    @staticmethod
     def assigned_names(body):
         names = set()
         for n in ast.walk(ast.Module(body=list(body), type_ignores=[])):
@@ -267,6 +290,7 @@ class Loop:
             k = z3.Int('over.k!%d' % next(eng.counter))
             probe = st.fork()
             elem = seqv.extra['get'](eng, k, probe)
+            eng._loop_in_hand = (s, seqv)          # (an `over` claim may look at what the first pass does: Loop.first_pass)
             claim = self.over(eng.make_ctx(st), seqv, k, elem)
             eng.oblige(st, 'loop%d.iterates-over' % ordinal, 'iterates-over',
                        z3.And(claim[0], z3.Implies(z3.And(k >= 0, k < seqv.extra['len'],
